@@ -40,6 +40,9 @@ pub enum Fate {
     CloseThenLinger { ns: Option<u64> },
     /// works for `before_ns`, closes stdout and stderr, runs on for `after_ns`, then ends with 0
     LateClose { before_ns: u64, after_ns: u64 },
+    /// passes; its first output lines begin with `>` (`>>> prompt`, `>quoted`): as expectation
+    /// lines they follow the command directly and must not be taken for continuation lines
+    GtLines,
 }
 
 #[derive(Clone, Debug)]
@@ -169,6 +172,12 @@ impl G {
                     None => ops.push(Op::Hang),
                 }
             }
+            Fate::GtLines => {
+                for (fd, text) in [(1u8, format!(">>>{}-a\n", tag)), (1, format!(">{}-b\n", tag)), (2, format!(">={}-e\n", tag)), (1, format!("{}-c\n", tag))] {
+                    ops.push(Op::Out { fd, data: text.as_str().into() });
+                }
+                ops.push(Op::Status { code: 0 });
+            }
             Fate::LateClose { before_ns, after_ns } => {
                 emit(&mut ops, n, 0);
                 ops.push(Op::Sleep { ns: *before_ns });
@@ -211,9 +220,11 @@ fn line_expectations(stream: &[u8]) -> Option<Vec<String>> {
     let body = if ends_nl { &text[..text.len() - 1] } else { text };
     let parts: Vec<&str> = body.split('\n').collect();
     for (i, l) in parts.iter().enumerate() {
+        // (`>` is an ordinary character of an expectation unless `> ` starts the line)
         let safe = !l.is_empty()
-            && l.bytes().all(|c| c.is_ascii_alphanumeric() || c == b'-' || c == b'_' || c == b'.')
-            && !l.starts_with('-');
+            && l.bytes().all(|c| c.is_ascii_alphanumeric() || c == b'-' || c == b'_' || c == b'.' || c == b'>' || c == b'=')
+            && !l.starts_with('-')
+            && !l.starts_with("> ");
         if !safe {
             return None;
         }
@@ -284,6 +295,8 @@ pub fn doc(path: &str, format: Format, tests: Vec<Test>) -> Doc {
         shell: None,
         raw: None,
         compact: false,
+        loose_front_matter: false,
+        fence_trailing_space: false,
     }
 }
 
@@ -381,6 +394,7 @@ pub fn fate_catalogue() -> Vec<(&'static str, Plan)> {
         ("slow-timeout", Plan::new(Fate::Slow { ns: 10 * SEC }).cfg(TestCfg { timeout_ns: Some(3 * SEC), ..Default::default() })),
         ("detached", Plan::new(Fate::Detached)),
         ("bg-hold", Plan::new(Fate::BgHold { ns: 500 * MS })),
+        ("gt-lines", Plan::new(Fate::GtLines)),
         ("close-then-linger-short", Plan::new(Fate::CloseThenLinger { ns: Some(300 * MS) })),
         ("late-close-ok", Plan::new(Fate::LateClose { before_ns: 800 * MS, after_ns: 800 * MS }).cfg(TestCfg { timeout_ns: Some(2 * SEC), ..Default::default() })),
         ("late-close-over", Plan::new(Fate::LateClose { before_ns: 1200 * MS, after_ns: 1700 * MS }).cfg(TestCfg { timeout_ns: Some(2 * SEC), ..Default::default() })),
